@@ -69,7 +69,88 @@ fn fold_steps(b: &syn::Block, fields: &[String]) -> (Vec<FoldStep>, Option<usize
     (steps, will_map, map_user)
 }
 
+/// B1: positions found in a sub-slice are re-based.
+fn search_rebasing(cx: &mut Ctx) {
+    let rule = "C13.B1";
+    cx.rule(rule, "in core/src/source_code.rs every line-break search runs either on the whole source (the position found is an absolute offset) or on a tail `&source[a..]`, and then the position is re-based by `a` before it is used — sibling agreement between LinearLocatorState::init and LinearLocator::locate_inner; a line end that is relative to the slice shifts every later line");
+    cx.floor(rule, 2);
+    let src = match sm::load(&cx.repo, "core/src/source_code.rs") {
+        Ok(s) => s,
+        Err(e) => return cx.anchor_missing(rule, &e),
+    };
+    let mut fns: Vec<(String, &syn::Block)> = vec![];
+    for i in src.impls() {
+        for it in &i.items {
+            if let syn::ImplItem::Fn(f) = it {
+                fns.push((format!("{}::{}", sm::self_ty_name(i), f.sig.ident), &f.block));
+            }
+        }
+    }
+    for (fname, block) in fns {
+        // locals bound to a slice expression
+        let mut lets: BTreeMap<String, syn::Expr> = BTreeMap::new();
+        sm::for_each_stmt_in_block(block, &mut |st| {
+            if let syn::Stmt::Local(l) = st {
+                let mut ids = vec![];
+                sm::pat_idents(&l.pat, &mut ids);
+                if let (1, Some(init)) = (ids.len(), &l.init) {
+                    lets.insert(ids[0].clone(), (*init.expr).clone());
+                }
+            }
+        });
+        let mut n = 0;
+        sm::for_each_expr_in_block(block, |e| {
+            let Some(il) = sm::if_let_form(e) else { return };
+            let syn::Expr::Call(c) = il.scrut else { return };
+            let callee = sm::tsc(&c.func);
+            if !(callee.ends_with("find_newline") || callee.ends_with("memchr2") || callee.ends_with("memrchr2")) || c.args.is_empty() {
+                return;
+            }
+            n += 1;
+            // the searched text, through a local
+            let mut arg: syn::Expr = c.args.last().unwrap().clone();
+            if let Some(id) = sm::as_ident(&arg) {
+                if let Some(init) = lets.get(&id) {
+                    arg = init.clone();
+                }
+            }
+            let mut inner: &syn::Expr = &arg;
+            loop {
+                match inner {
+                    syn::Expr::Reference(r) => inner = &r.expr,
+                    syn::Expr::Paren(p) => inner = &p.expr,
+                    syn::Expr::MethodCall(mc) if mc.method == "as_bytes" => inner = &mc.receiver,
+                    _ => break,
+                }
+            }
+            let start: Option<String> = match inner {
+                syn::Expr::Index(ix) => match &*ix.index {
+                    syn::Expr::Range(r) => r.start.as_ref().map(|s| sm::tsc(s)).filter(|s| s != "0"),
+                    _ => None,
+                },
+                _ => None,
+            };
+            let key = format!("{}/{}#{}", rule, fname, n);
+            match start {
+                None => cx.ok(rule, &format!("{}: {} searches `{}` from its beginning: the position is absolute", fname, callee, sm::tsc(inner))),
+                Some(a) => {
+                    let mut ids = vec![];
+                    sm::pat_idents(il.pat, &mut ids);
+                    let p = ids.first().cloned().unwrap_or_default();
+                    let body = sm::tsc(il.then_block);
+                    if body.contains(&format!("{}+{}", a, p)) || body.contains(&format!("{}+{}", p, a)) {
+                        cx.ok(rule, &format!("{}: {} searches the tail from `{}` and re-bases the position by it", fname, callee, a));
+                    } else {
+                        cx.fail(rule, &key, &src.loc(e), &format!("{}: {} searches the tail `{}` but the position `{}` is used without adding `{}`: the line end is relative to the slice", fname, callee, sm::tsc(inner), p, a));
+                    }
+                }
+            }
+        });
+    }
+}
+
 pub fn run(cx: &mut Ctx) {
+    search_rebasing(cx);
     cx.rule("C13.O1", "for every node kind the effective linear fold order (the LinearLocator override in source_locator.rs if present, else the generated fold) visits the range-carrying children in the reference source order (refdata asdl_source_order, which C01.O1 ties to the grammar's binding order): the forward-only cursor never has to go back");
     cx.rule("C13.O2", "where two range-carrying list fields are interleaved in source (Dict keys/values, MatchMapping keys/patterns, Call args/keywords, ClassDef bases/keywords) the effective fold zips them or locates one of them with the look-ahead locator before folding the other");
     cx.rule("C13.O3", "overrides keep the fold contract: children that precede the node's own start (decorators) are folded before will_map_user; the context is taken before the other children and map_user(range, context) after them; every field is folded or carried exactly once and rebuilt under its own name");
